@@ -349,8 +349,8 @@ Definition kstep_rename_fk_refs (s : schema) (a : action) (rest : list action) :
    Attribution is by SHAPE and by OBJECT: a class explains a failure only when one of its trigger steps (or its
    baseline condition) is about the same table as the failing statement / the differing object, so that a different
    defect with the same symptom elsewhere in the plan is still reported.
-   A class whose baseline condition holds for a table explains what concerns that table (the migration starts from a
-   catalog PostgreSQL cannot be in).  Otherwise a class explains an engine error only if (a) one of its steps occurs at or before the failing action and
+   A class whose baseline condition holds for a table explains, among the symptoms it can cause, those that concern
+   that table (the migration starts from a catalog PostgreSQL cannot be in).  Otherwise a class explains an engine error only if (a) one of its steps occurs at or before the failing action and
    (b) the violated rule is one the class can cause; it explains a catalog difference item only if the kind of
    item is one the class can cause.  A case is attributed to known findings only if its error is explained, or
    EVERY difference item is explained, by a class that fires on it. *)
@@ -479,10 +479,12 @@ Definition classes : list kclass :=
   ; mkClass "known_C03_enum_case_fold" no_base_t kstep_enum_case_fold no_extra [9] [DkColType]
   ; mkClass "known_C03_enum_case_fold" no_base_t kstep_enum_case_fold_existing no_extra [10; 2] [DkColType]
   ; mkClass "known_C03_enum_vs_row_type" no_base_t kstep_enum_vs_row_type no_extra [2] []
-  ; mkClass "known_C03_duplicate_name" base_duplicate_tables kstep_duplicate_name no_extra [1; 8; 6; 7] index_con_diffs
+  ; mkClass "known_C03_duplicate_name" base_duplicate_tables kstep_duplicate_name no_extra [1; 8; 6; 7; 15]
+            (DkColAuto :: DkColNotnull :: index_con_diffs)
   ; mkClass "known_C03_autoinc_by_alter" no_base_t kstep_autoinc_by_alter no_extra [] [DkColAuto]
   ; mkClass "known_C03_inline_promoted" no_base_t kstep_inline_promoted no_extra [1; 8] index_con_diffs
-  ; mkClass "known_C03_rename_fk_refs" base_dangling_tables kstep_rename_fk_refs extra_referencing [] [DkConDiffers]
+  ; mkClass "known_C03_rename_fk_refs" base_dangling_tables kstep_rename_fk_refs extra_referencing [3; 4; 13]
+            [DkConDiffers; DkMissingCon; DkExtraCon]
   ; mkClass "known_C03_key_replaced_under_fk" no_base_t kstep_key_replaced_under_fk no_extra [11] []
   ; mkClass "known_C03_reference_before_key" no_base_t kstep_reference_before_key no_extra [13; 3; 4] []
   ; mkClass "known_C03_fk_lost_by_column_drop" no_base_t kstep_fk_lost_by_column_drop no_extra [] [DkExtraCon; DkConDiffers]
@@ -510,14 +512,14 @@ Definition attribute (k : pg_case) (o : outcome) : list bool * bool :=
   | OEngineError ai _ e =>
       (* what the failing statement is about: the tables its action names and those the error names *)
       let about := match nth_error acts ai with Some a => action_tables a | None => [] end ++ err_tables e in
-      let bits := map (fun c => (meets about (kc_base c b)
-                                 || (mem_nat (error_code e) (kc_errors c)
-                                     && meets about (touched_upto (S ai) c b acts)))%bool) classes in
+      let bits := map (fun c => (mem_nat (error_code e) (kc_errors c)
+                                 && (meets about (kc_base c b)
+                                     || meets about (touched_upto (S ai) c b acts)))%bool) classes in
       (bits, existsb (fun x => x) bits)
   | ODiff d =>
       let explains (c : kclass) (x : diff_item) :=
-        (diff_about (kc_base c b) x
-         || (mem_dkind (dkind_of x) (kc_diffs c) && diff_about (touched_upto (List.length acts) c b acts) x))%bool in
+        (mem_dkind (dkind_of x) (kc_diffs c)
+         && (diff_about (kc_base c b) x || diff_about (touched_upto (List.length acts) c b acts) x))%bool in
       let bits := map (fun c => existsb (explains c) d) classes in
       (bits, forallb (fun x => existsb (fun c => explains c x) classes) d)
   | _ => (map (fun _ => false) classes, false)
